@@ -7,7 +7,7 @@ p="$1"; shift
 if ! git -C /repo diff --quiet || ! git -C /repo diff --cached --quiet; then
   echo "with_patch: /repo has uncommitted changes - commit them first" >&2; exit 3
 fi
-( cd /repo && patch -p1 --fuzz=3 -s < "$p" ) || { git -C /repo checkout -- .; find /repo -name '*.orig' -o -name '*.rej' | xargs -r rm -f; echo "with_patch: patch does not apply" >&2; exit 4; }
+p=$(readlink -f "$p"); ( cd /repo && patch -p1 --fuzz=3 -s < "$p" ) || { git -C /repo checkout -- .; find /repo -name '*.orig' -o -name '*.rej' | xargs -r rm -f; echo "with_patch: patch does not apply" >&2; exit 4; }
 find /repo -name '*.orig' -o -name '*.rej' | xargs -r rm -f
 "$@"; rc=$?
 git -C /repo checkout -- .
